@@ -631,13 +631,23 @@ CHECKS["C18"].update({
              "implemented relation, delete_at / replace_at / skip_at (= Spec.editAt); chained_order, chained_order_personal / chained_skip_personal "
              "(repaired SkipNode semantics), nested_chain_flat_is_chain. Closed by decide +kernel on the generated table: table_closed, visit_total, "
              "dispatching_total, table_steps_distinct, dispatchers_agree_with_visit, missed_children_today (coverage read as: all children EXCEPT 15 listed "
-             "(kind, attribute) pairs, W1-W4) + uncovered_partition, once_today, edits_today. Full coverage is REFUTED (full_coverage_false, gaps_executable, "
+             "(kind, attribute) pairs, W1-W4) + uncovered_partition, once_today, edits_today. Coverage WITHOUT the premise that a child is dispatched to "
+             "the method of its own kind: Reached / reached_walk / reached_visited (every table: whatever method a call target resolves to), Covered "
+             "(purely structural) with covered_reached on well-kinded trees, table_kinded_today (every call target, dispatcher or directly called method, "
+             "runs on every child class that ast.py / the parser admit there exactly the statements of that class's own method; child-kind table "
+             "re-extracted from the annotations of ast.py + parser probes) and the closed form all_covered_children_visited. Sibling order (W5) as "
+             "theorems: list_members_in_order, siblings_in_statement_order (every table), sibling_order_inversions_today (statement order contradicts "
+             "slot = source order for exactly four (kind, first, second) triples: default_value before type, type before arguments, operation types "
+             "before directives x2) and siblings_in_source_order_today (all other sibling pairs of all kinds are visited in source order). "
+             "Full coverage is REFUTED (full_coverage_false, gaps_executable, "
              "gaps_type_system, order_violated: W1-W5) and ChainedVisitor discards member deletions / replacements (chain_not_faithful, W6). Tied by trace "
              "(phase, node identity, kind, handler) and result-tree correspondence with scripted real visitors at every node position, Spec.editAt against the "
              "real code, and a direct exactly-once / nesting / locality / chain-order oracle."),
     "note": ("Trusted: Lean kernel; the table extractor C18_table.py (shape-checked static extraction from the Python ast of visitor.py; a dynamic fallback "
              "C18_dynamic.py observes the table on one maximal instance per node class when a shape is not recognised - evidence key `extraction`); "
-             "generators. The hand-written wrapper / map_and_filter / chain models are tied by the correspondence only. Only exercised: in-place aliasing "
+             "generators. The hand-written wrapper / map_and_filter / chain models are tied by the correspondence only. Hypothesis of the closed coverage / "
+             "order theorems: the document is well-kinded w.r.t. the extracted child-kind table (checked on every document of every run: "
+             "`wellkinded:*`), and `__slots__` order = source order (checked against `loc` on the probe documents at extraction). Only exercised: in-place aliasing "
              "(child lists never edited in place, structurally equal siblings), DispatchingVisitor class histories, `visitors` reassigned after "
              "construction, ChainedVisitor subclasses as members, CPython recursion limit (known finding W9: RecursionError with enters without leaves on "
              "documents nested deeper than the interpreter stack). Known findings W1-W6 (pinned by the literal event lists of test_visitor.py or not a small "
@@ -658,16 +668,23 @@ CHECKS["C19"].update({
              "error iff a selected operation is deeper than n, all n >= 0, all filters), no_raise(_v/_repaired), name_filter, acyclic_iff_Acyclic, "
              "depth_fuel_irrelevant, measured_eq_depth. Wrapping never lowers (never changes) the measured depth: wrap_inline_ge / wrap_spread_ge "
              "(operation level), wrap_inline_in_fragment_ge / wrap_spread_in_fragment_ge (inside fragment bodies), and for the live measure depthK with ANY "
-             "request variables wrap_inline_final, wrap_inline_in_fragment_final, wrap_spread_in_fragment_final. selected_fields: selected_fields_exact "
+             "request variables wrap_inline_final, wrap_spread_final, wrap_inline_in_fragment_final, wrap_spread_in_fragment_final; the validity of the "
+             "wrapped document is DERIVED (wrap_inline_in_fragment_valid / wrap_spread_in_fragment_valid from unique names + freshness of the new "
+             "fragment name, explicit rank), giving wrap_inline_in_fragment / wrap_spread_in_fragment and the _final_derived forms without any hypothesis "
+             "on the wrapped document. The loop of _nesting_levels is modelled AS WRITTEN (shape re-extracted: DepthFrontier.nestingLevelsF = the "
+             "frontier of selection lists of today's tree; DepthMerged.nestingLevelsM = one list per level, proposed fix C19-H3) and proved equal to "
+             "the recursive measure on acyclic documents: nestingLevelsFS_ok, frontier_eq_recursive, ruleF_eq_ruleB, flags_iff_final_frontier, "
+             "ruleF_never_raises (and the same five for the merged loop). selected_fields: selected_fields_exact "
              "(listed paths = selected paths within maxdepth matching the pattern), _sound, _complete, _exact_lenient, _lenient_eq_strict. decide "
              "refutations for the original rule and the original selected_fields (Props/C19_orig.lean, C19_paths.lean). Tied by correspondence (error set "
              "per operation, raises, listed paths) and the direct oracles flagged <=> reference depth > limit and listed = reference paths on exhaustive "
              "small distributions of a selection over inline / named fragments, raw JSON variable assignments, histories on one rule instance and Document, "
              "cyclic documents, wide selection sets, deep chains (500..3000), also through graphql_blocking(validators=[default, rule])."),
-    "note": ("Trusted: Lean kernel; generators; extraction of the variant flags; the iterative level-by-level _nesting_levels of C19-Q3 is modelled by the "
-             "equivalent recursion nestingLevelsG (equivalence exercised by every stream, not proved); statelessness of the rule between calls is checked by "
-             "the history stream, not proved; float forms of request variables are not generated. The in-fragment wrap theorems take validity of the wrapped "
-             "document as a hypothesis. Known findings H1 (a FLAT operation behind ~988 forwarding fragments is reported too deep: RecursionError inside one "
-             "level), H3 (exponential number of collections with key merging across levels; verdicts correct). Repaired: Q1, Q1sf, Q1-vars, Q1-vars2, Q2, Q3, H2."),
+    "note": ("Trusted: Lean kernel; generators; extraction of the variant flags and of the loop shape; the `id`-based de-duplication inside one level of "
+             "_nesting_levels is not modelled (result-transparent, exercised); statelessness of the rule between calls is checked by "
+             "the history stream, not proved; float forms of request variables are not generated. Proposed fix C19-H3 (one list per level: polynomial "
+             "number of collections, unedited suite passes; until it is applied the check reports H3 as a known finding). Known findings H1 (a FLAT operation behind ~988 forwarding fragments is reported too deep: RecursionError inside one "
+             "level; not a small repair: needs an explicit stack in collect_fields_untyped, and validation / execution fail on such documents anyway), H3 "
+             "(exponential number of collections with key merging across levels; verdicts correct; fix proposed). Repaired: Q1, Q1sf, Q1-vars, Q1-vars2, Q2, Q3, H2."),
     "technique": "Lean 4 proof (rule = spec depth on the live variant, wrapping invariance, path exactness) + exhaustive small-scope correspondence and cost oracle",
 })
